@@ -81,6 +81,64 @@ Proof.
   field. split; intro E; [rewrite E in Hp|rewrite E in HT]; apply (Qlt_irrefl 0); assumption.
 Qed.
 
+(* the array form: the WORST chosen alternative is the one the ratio is taken against *)
+Lemma aminQ_fold_scale T t : 0 < T -> forall d, fold_left (fun a y => if Qle_bool a y then a else y) (map (fun c => c / T) t) (d / T) = fold_left (fun a y => if Qle_bool a y then a else y) t d / T.
+Proof.
+  intro HT. induction t as [|x t IH]; intro d; cbn [map fold_left]; [reflexivity|].
+  assert (Hb : Qle_bool (d / T) (x / T) = Qle_bool d x).
+  { destruct (Qle_bool d x) eqn:E.
+    - apply Qle_bool_iff. apply Qle_bool_iff in E. unfold Qdiv. apply Qmult_le_compat_r; [exact E|]. apply Qlt_le_weak, Qinv_lt_0_compat, HT.
+    - apply not_true_is_false. intro H. apply Qle_bool_iff in H. assert (Hle : d <= x).
+      { unfold Qdiv in H. apply (Qmult_le_r _ _ (/ T)); [apply Qinv_lt_0_compat, HT|exact H]. }
+      apply Qle_bool_iff in Hle. congruence. }
+  rewrite Hb. destruct (Qle_bool d x); apply IH.
+Qed.
+Lemma aminQ_scale T l : 0 < T -> l <> [] -> gen_aminQ (map (fun c => c / T) l) = gen_aminQ l / T.
+Proof. intros HT Hne. destruct l as [|x t]; [congruence|]. unfold gen_aminQ. cbn [map]. apply aminQ_fold_scale. exact HT. Qed.
+Lemma aminQ_fold_le t : forall a y, In y (a :: t) -> fold_left (fun a y => if Qle_bool a y then a else y) t a <= y.
+Proof.
+  induction t as [|x t IH]; intros a y Hin; cbn [fold_left].
+  - destruct Hin as [<-|[]]. apply Qle_refl.
+  - destruct (Qle_bool a x) eqn:E.
+    + destruct Hin as [<-|[<-|Hin]]; [apply IH; left; reflexivity| |apply IH; right; exact Hin].
+      apply Qle_trans with a; [apply IH; left; reflexivity|apply Qle_bool_iff; exact E].
+    + assert (Hxa : x <= a).
+      { destruct (Qlt_le_dec x a) as [H|H]; [apply Qlt_le_weak; exact H|]. apply Qle_bool_iff in H. congruence. }
+      destruct Hin as [<-|[<-|Hin]]; [|apply IH; left; reflexivity|apply IH; right; exact Hin].
+      apply Qle_trans with x; [apply IH; left; reflexivity|exact Hxa].
+Qed.
+Lemma aminQ_le l y : In y l -> gen_aminQ l <= y.
+Proof. destruct l as [|x t]; [intros []|]. intro Hin. unfold gen_aminQ. apply aminQ_fold_le. exact Hin. Qed.
+
+Theorem gen_distortion_arr_is_worst_welfare_ratio cs V : let w := nancolsum (qncols V) V in
+  0 < nansum_all V -> cs <> [] -> (forall c, In c cs -> (c - 1 < qncols V)%nat /\ 0 < nth (c - 1) w 0) ->
+  gen_distortion_arr cs V == amaxQ w / gen_aminQ (map (fun c => nth (c - 1) w 0) cs)
+  /\ In (gen_aminQ (map (fun c => nth (c - 1) w 0) cs)) (map (fun c => nth (c - 1) w 0) cs)
+  /\ (forall c, In c cs -> gen_aminQ (map (fun c => nth (c - 1) w 0) cs) <= nth (c - 1) w 0).
+Proof.
+  intros w HT Hne Hall.
+  assert (Hm : map (fun c => nth (c - 1) w 0) cs <> []) by (destruct cs; [congruence|discriminate]).
+  pose proof (aminQ_in _ Hm) as Hin.
+  split; [|split; [exact Hin|]].
+  2:{ intros c Hc. apply aminQ_le. apply in_map_iff. exists c. split; [reflexivity|exact Hc]. }
+  unfold gen_distortion_arr. cbv zeta. rewrite gen_complete_score. unfold gen_score_SocialWelfare. fold w.
+  assert (Hlen : length w = qncols V) by (unfold w, nancolsum; rewrite map_length, seq_length; reflexivity).
+  assert (Hw : w <> []).
+  { intro E. destruct cs as [|c0 cs']; [congruence|]. destruct (Hall c0 (or_introl eq_refl)) as [Hlt _]. rewrite E in Hlen. cbn in Hlen. lia. }
+  rewrite (amaxQ_scale _ w HT Hw).
+  assert (Hmap : map (fun c => nth (c - 1) (divvec w (nansum_all V)) 0) cs = map (fun c => c / nansum_all V) (map (fun c => nth (c - 1) w 0) cs)).
+  { rewrite map_map. apply map_ext_in. intros c Hc. apply nth_divvec. rewrite Hlen. apply Hall. exact Hc. }
+  rewrite Hmap. rewrite (aminQ_scale _ _ HT Hm).
+  assert (Hpos : 0 < gen_aminQ (map (fun c => nth (c - 1) w 0) cs)).
+  { apply in_map_iff in Hin. destruct Hin as [c [Hc Hcin]]. rewrite <- Hc. apply Hall. exact Hcin. }
+  field. split; intro E; [rewrite E in Hpos|rewrite E in HT]; apply (Qlt_irrefl 0); assumption.
+Qed.
+
+(* non-vacuity: alternatives 2 and 3 passed; 2 is the worse one (welfare 1/2 against 1/2 .. 3/4) *)
+Example gen_distortion_arr_example :
+  gen_distortion_arr [3; 2]%nat [[Some (1 # 2); Some (1 # 4); None]; [Some (1 # 4); Some (1 # 4); Some (1 # 2)]] == 3 # 2.
+Proof. vm_compute. reflexivity. Qed.
+
 (* non-vacuity: two agents, three alternatives, one unlisted; alternative 2 chosen *)
 Example gen_distortion_example :
   gen_distortion_int 2 [[Some (1 # 2); Some (1 # 4); None]; [Some (1 # 4); Some (1 # 4); Some (1 # 2)]] == 3 # 2.
@@ -101,3 +159,8 @@ Print Assumptions maxQ_scale.
 Print Assumptions amaxQ_scale.
 Print Assumptions nth_divvec.
 Print Assumptions gen_distortion_is_welfare_ratio.
+Print Assumptions aminQ_fold_scale.
+Print Assumptions aminQ_scale.
+Print Assumptions aminQ_fold_le.
+Print Assumptions aminQ_le.
+Print Assumptions gen_distortion_arr_is_worst_welfare_ratio.
